@@ -281,11 +281,70 @@ func damage(r *prng.Rand, out *render.Out, text bool) ([]byte, []string) {
 		if len(data) == 0 {
 			break
 		}
-		kind := r.Intn(9)
+		kind := r.Intn(10)
 		if kind >= 6 && !sitesUsable {
 			kind = r.Intn(6)
 		}
+		if kind == 9 && text {
+			kind = 6 + r.Intn(3)
+		}
 		switch kind {
+		case 9:
+			// off-by-a-few length: an inline length nibble or the last VarUInt octet of a length moves by 1..3, so a
+			// value ends just before or just past the end of its container (only valid on undamaged offsets)
+			var cands []render.Site
+			for _, s := range out.Sites {
+				if (s.Kind == "tag" && s.Aux&0xff < 14 && (s.Aux>>8) >= 2) || s.Kind == "len" {
+					cands = append(cands, s)
+				}
+			}
+			if len(cands) == 0 {
+				continue
+			}
+			// prefer the length of a container (where overruns by one matter most), nested ones above all
+			var conts []render.Site
+			for _, s := range cands {
+				tagOff := s.Off
+				if s.Kind == "len" {
+					tagOff = s.Off - 1
+				}
+				if tagOff >= 0 && tagOff < len(out.Bytes) && out.Bytes[tagOff]>>4 >= 11 && out.Bytes[tagOff]>>4 <= 13 && s.Depth > 0 {
+					conts = append(conts, s)
+				}
+			}
+			s := cands[r.Intn(len(cands))]
+			if len(conts) > 0 && r.Chance(2, 3) {
+				s = conts[r.Intn(len(conts))]
+			}
+			delta := r.Range(1, 3)
+			if r.Chance(1, 3) {
+				delta = -delta
+			}
+			at := s.Off
+			var nb byte
+			if s.Kind == "tag" {
+				l := int(data[at]&0x0f) + delta
+				if l < 0 {
+					l = 0
+				}
+				if l > 13 {
+					l = 13
+				}
+				nb = data[at]&0xf0 | byte(l)
+			} else {
+				at = s.Off + s.Len - 1
+				v := int(data[at]&0x7f) + delta
+				if v < 0 {
+					v = 0
+				}
+				if v > 0x7f {
+					v = 0x7f
+				}
+				nb = 0x80 | byte(v)
+			}
+			data = sim.ApplyMedium(out.Bytes, sim.MediumFault{Kind: "replace", At: at, Len: 1, Data: []byte{nb}})
+			kinds = append(kinds, "length-off-by-few")
+			sitesUsable = false
 		case 0:
 			data = sim.ApplyMedium(data, sim.MediumFault{Kind: "flip", At: r.Intn(len(data)), Bit: uint(r.Intn(8))})
 			kinds = append(kinds, "flip")
